@@ -86,6 +86,29 @@ def run_c06(chk):
                 if ids[a] == ids[b] and concept_of[a] != concept_of[b]:
                     e = 'words %d (%s) and %d (%s) of different concepts share id %d' % (a, concept_of[a], b, concept_of[b], ids[a])
         if not e:
+            # the matrix clustered for a concept holds, for EVERY pair of its words, the distance of the method (identical forms in two
+            # languages included: under the lexstat scorer their distance is not 0 in general)
+            try:
+                fn = lex._distance_method(method, scale=0.5, factor=0.3, restricted_chars='_T', mode='overlap', gop=-2,
+                                          restriction='', external_scorer=False)
+            except Exception:  # noqa
+                fn = None
+            for c, idx, m in mats:
+                for i in range(len(idx)):
+                    for j in range(i + 1, len(idx)):
+                        if fn is None or e:
+                            break
+                        try:
+                            dij = fn(idx[i], idx[j])
+                        except ZeroDivisionError:
+                            dij = 100
+                        chk.evaluations += 1
+                        if lex[idx[i], 'tokens'] == lex[idx[j], 'tokens']:
+                            chk.hist['pair of identical forms in one concept (%s)' % method] += 1
+                        if not (m[i][j] == dij and m[j][i] == dij):
+                            e = ('concept %r: the matrix that is clustered has %r for words %d %r and %d %r, the %s distance of the pair is %r'
+                                 % (c, m[i][j], idx[i], lex[idx[i], 'tokens'], idx[j], lex[idx[j], 'tokens'], method, dij))
+        if not e:
             for c, idx, m in mats:
                 part = partition_of(ids, idx)
                 clusters = {i: [idx.index(k) for k in block] for i, block in enumerate(part)}
